@@ -80,7 +80,7 @@ impl Backend {
             // go-to-definition and hover on the parameter do.
             let overridden = self
                 .fixture_db
-                .get_definition_at_line(&file_path, usage.line, &usage.name)
+                .get_enclosing_definition_named(&file_path, usage.line, &usage.name)
                 .map(|own| {
                     self.fixture_db.find_closest_definition_excluding(
                         &file_path,
